@@ -63,6 +63,13 @@ def run(ctx):
                 if conf == 'compiled':
                     obj.compile()
                     ctx.drv.ask('circ %s compile' % a)
+            if rng.random() < 0.3:
+                # use the object once in each direction (fills the lazily cached inverse maps), then continue on a copy of it
+                warm = impl.plist(Ps)
+                obj.forward(warm); obj.backward(warm)
+                if hasattr(obj, 'copy') and not (conf in ('compiled', 'recompiled', 'plain', 'layers') and klass == 'Circuit'):
+                    obj = obj.copy()
+                    ctx.count('copy-after-use')
             nlay = len(list(obj.layers_forward())) if hasattr(obj, 'layers_forward') else 1
             ctx.case((str(prog), klass, conf, order), nlay >= 2, sample=dict(op='backward/forward', N=N, length=len(prog), conf=conf, order=order, layers=nlay))
             f1, f2 = (obj.forward, obj.backward) if order == 'bf' else (obj.backward, obj.forward)
